@@ -150,37 +150,6 @@ func c01File(tc l4Case, f *syntax.File) *l4Fail {
 	return nil
 }
 
-type subnode struct {
-	mode string
-	node syntax.Node
-}
-
-// subnodesOf lists every Stmt, every Stmt.Cmd and every CallExpr argument word, in Walk order.
-func subnodesOf(f *syntax.File) []subnode {
-	var out []subnode
-	ns, nc, nw := 0, 0, 0
-	safely(func() {
-		syntax.Walk(f, func(n syntax.Node) bool {
-			switch n := n.(type) {
-			case *syntax.Stmt:
-				out = append(out, subnode{fmt.Sprintf("stmt#%d", ns), n})
-				ns++
-				if n.Cmd != nil {
-					out = append(out, subnode{fmt.Sprintf("cmd#%d", nc), n.Cmd})
-					nc++
-				}
-			case *syntax.CallExpr:
-				for _, w := range n.Args {
-					out = append(out, subnode{fmt.Sprintf("word#%d", nw), w})
-					nw++
-				}
-			}
-			return true
-		})
-	})
-	return out
-}
-
 // c01Sub executes the statement for one sub-node printed on its own.
 func c01Sub(tc l4Case, sn subnode) *l4Fail {
 	cfg := normCfg{minify: tc.Opts.Minify}
